@@ -29,7 +29,8 @@ LEVEL = {
                "advancing the groupby clears the live group before it first suspends and installs the returned group; "
                "(R16.3) groups consume only items of their key, the parent discards the rest of the previous run, an item "
                "is handed out at most once, an unconsumed item is never overwritten, item and key are published together; "
-               "(R16.4) keys are compared by equality only.",
+               "(R16.4) keys are compared by equality only; (R16.5) closing a group clears the live-group reference iff it is that "
+               "group and advances nothing.",
     "not_decided": "equality with itertools.groupby over whole operation histories (the stdlib sibling is C code; a "
                    "history-level argument needs state exploration).",
     "technique": "static analysis: dominance of liveness/key tests, invalidate-before-await, comparison discipline",
